@@ -3681,3 +3681,440 @@ func TestGovcReplay(t *testing.T) {
 		},
 	}}, harnesses...)
 }
+
+func init() {
+	harnesses = append([]*harness{{
+		name:      "health check round replay (real health checker, scripted session: one slow check, then in-time answers)",
+		modelFree: true,
+		match: func(o *Obligation) bool {
+			return strings.HasSuffix(o.Func, "upstream/healthcheck.(*sessionChecker).Start")
+		},
+		run: func(eng *Engine, o *Obligation) *ReplayOutcome {
+			src := `package healthcheck
+
+import (
+	"fmt"
+	"sync"
+	"sync/atomic"
+	"testing"
+	"time"
+
+	"mosn.io/api"
+	v2 "mosn.io/mosn/pkg/config/v2"
+	"mosn.io/mosn/pkg/types"
+)
+
+// The failed obligation says: the session checker moves on to a new check id without having started a check for it (an
+// expired answer ended the round). Replay on a real health checker with a scripted session: check #1 answers after its
+// timeout (one failure, its late answer lands while check #2 runs), check #2 and all later ones answer "healthy" in time.
+// With unhealthy_threshold=2 the host must stay healthy.
+type govcScriptSession struct {
+	calls int32
+}
+
+func (s *govcScriptSession) CheckHealth() bool {
+	n := atomic.AddInt32(&s.calls, 1)
+	switch n {
+	case 1:
+		// slower than timeout(200ms)+interval(100ms): times out, answer is stale
+		time.Sleep(400 * time.Millisecond)
+		return true
+	case 2:
+		// in time (150ms < 200ms), but the stale answer of #1 lands in between
+		time.Sleep(150 * time.Millisecond)
+		return true
+	}
+	return true
+}
+func (s *govcScriptSession) OnTimeout() {}
+
+type govcScriptFactory struct{ s *govcScriptSession }
+
+func (f *govcScriptFactory) NewSession(cfg map[string]interface{}, host types.Host) types.HealthCheckSession {
+	return f.s
+}
+
+func TestGovcReplay(t *testing.T) {
+	cfg := v2.HealthCheck{
+		HealthCheckConfig: v2.HealthCheckConfig{
+			Protocol:            "govc-script",
+			HealthyThreshold:    100, // stay unhealthy once marked, to make the assertion stable
+			UnhealthyThreshold:  2,
+			ServiceName:         "govc_stale_response",
+			InitialDelaySeconds: api.DurationConfig{Duration: 20 * time.Millisecond},
+		},
+		Timeout:  200 * time.Millisecond,
+		Interval: 100 * time.Millisecond,
+	}
+	sess := &govcScriptSession{}
+	hc := newHealthChecker(cfg, &govcScriptFactory{s: sess})
+	var mu sync.Mutex
+	var events []string
+	hc.AddHostCheckCompleteCb(func(host types.Host, changed bool, isHealthy bool) {
+		mu.Lock()
+		defer mu.Unlock()
+		e := "fail"
+		if isHealthy {
+			e = "ok"
+		}
+		if changed {
+			e += "(changed)"
+		}
+		events = append(events, e)
+	})
+	h := &mockHost{addr: "govc_stale_response"}
+	hc.SetHealthCheckerHostSet(&mockHostSet{hosts: []types.Host{h}})
+	time.Sleep(900 * time.Millisecond)
+	hc.Stop()
+	time.Sleep(50 * time.Millisecond)
+	mu.Lock()
+	defer mu.Unlock()
+	if h.ContainHealthFlag(api.FAILED_ACTIVE_HC) {
+		fmt.Printf("REPLAY-CONFIRMED unhealthy_threshold=2, results: check #1 timed out, every later check answered healthy within its timeout; the host is marked unhealthy (callback events %v, network failures counted: %d): the in-time answer of check #2 was thrown away as expired\n", events, hc.(*healthChecker).stats.networkFailure.Count())
+		return
+	}
+	fmt.Printf("REPLAY-NOT-REPRODUCED host stays healthy, events %v\n", events)
+}
+`
+			out, _ := runOverlayTest("pkg/upstream/healthcheck", src, "^TestGovcReplay$")
+			return outcomeFromOutput(src, out)
+		},
+	}}, harnesses...)
+}
+
+func init() {
+	harnesses = append([]*harness{{
+		name:      "stale response status replay (real retry state, called the way the proxy calls it over two tries)",
+		modelFree: true,
+		match: func(o *Obligation) bool {
+			return strings.HasSuffix(o.Func, "proxy.(*retryState).doRetryCheck") && strings.Contains(o.Name, "resetByReason")
+		},
+		run: func(eng *Engine, o *Obligation) *ReplayOutcome {
+			src := `package proxy
+
+import (
+	"fmt"
+	"context"
+	"testing"
+
+	"mosn.io/api"
+	v2 "mosn.io/mosn/pkg/config/v2"
+	"mosn.io/mosn/pkg/protocol"
+	"mosn.io/mosn/pkg/router"
+	"mosn.io/mosn/pkg/types"
+	"mosn.io/pkg/variable"
+)
+
+// The failed obligation says: a reset (a reason is given, there is no response) is judged by the response status found in
+// the context. Replay on a real retry state, the way the proxy calls it: first try answered 500 (retried, as configured),
+// second try reset with UpstreamReset, which is not a retry condition.
+func TestGovcReplay(t *testing.T) {
+	rcfg := &v2.Router{}
+	rcfg.Route = v2.RouteAction{}
+	rcfg.Route.RetryPolicy = &v2.RetryPolicy{
+		RetryPolicyConfig: v2.RetryPolicyConfig{RetryOn: true, NumRetries: 5},
+	}
+	r, _ := router.NewRouteRuleImplBase(nil, rcfg)
+	clusterInfo := &fakeClusterInfo{mgr: &fakeResourceManager{}}
+
+	// reference: a reset with reason UpstreamReset is not a retry condition
+	fresh := variable.NewVariableContext(context.Background())
+	rs := newRetryState(r.Policy().RetryPolicy(), nil, clusterInfo, protocol.HTTP1)
+	if got := rs.retry(fresh, nil, types.UpstreamReset); got != api.NoRetry {
+		fmt.Println("REPLAY-INCONCLUSIVE reference case retried:", got)
+		return
+	}
+
+	// same request context over two tries
+	ctx := variable.NewVariableContext(context.Background())
+	rs = newRetryState(r.Policy().RetryPolicy(), nil, clusterInfo, protocol.HTTP1)
+	// first try answered with 500 (the http client stream sets the variable): retried, fine
+	variable.SetString(ctx, types.VarHeaderStatus, "500")
+	if got := rs.retry(ctx, protocol.CommonHeader{}, ""); got != api.ShouldRetry {
+		fmt.Println("REPLAY-INCONCLUSIVE first try answered 500 not retried:", got)
+		return
+	}
+	// second try: upstream resets the stream, exactly what onUpstreamReset passes
+	if got := rs.retry(ctx, nil, types.UpstreamReset); got != api.NoRetry {
+		fmt.Printf("REPLAY-CONFIRMED retry_on policy, first try answered 500 (retried), second try reset with reason UpstreamReset: retry() answers %v although the same reset on a first try is NoRetry - the stale status 500 of the first try was judged\n", got)
+		return
+	}
+	fmt.Println("REPLAY-NOT-REPRODUCED the reset of the second try is not retried")
+}
+`
+			out, _ := runOverlayTest("pkg/proxy", src, "^TestGovcReplay$")
+			return outcomeFromOutput(src, out)
+		},
+	}}, harnesses...)
+}
+
+func init() {
+	harnesses = append([]*harness{{
+		name:      "refused listener update replay (real connection handler: add, refused update, look at live stream filters and stored configuration)",
+		modelFree: true,
+		match: func(o *Obligation) bool {
+			return strings.HasSuffix(o.Func, "server.(*connHandler).AddOrUpdateListener") && strings.Contains(o.Name, "acceptedBeforeInstall")
+		},
+		run: func(eng *Engine, o *Obligation) *ReplayOutcome {
+			src := `package server
+
+import (
+	"fmt"
+	"context"
+	"net"
+	"sync/atomic"
+	"testing"
+
+	"mosn.io/api"
+	v2 "mosn.io/mosn/pkg/config/v2"
+	"mosn.io/mosn/pkg/configmanager"
+	"mosn.io/mosn/pkg/streamfilter"
+)
+
+// The failed obligation says: the filters of an update are installed before it is known that the update is accepted.
+// Replay on the real connection handler: add a listener, send an update under the same name with another address (it is
+// refused), then look at what a new stream on the listener gets and at the stored configuration.
+var govcRjStreamCreated int32
+
+type govcRjStreamFilterFactory struct{}
+
+func (ff *govcRjStreamFilterFactory) CreateFilterChain(context context.Context, callbacks api.StreamFilterChainFactoryCallbacks) {
+	atomic.AddInt32(&govcRjStreamCreated, 1)
+}
+
+func init() {
+	api.RegisterStream("govc_rj_stream", func(conf map[string]interface{}) (api.StreamFilterChainFactory, error) {
+		return &govcRjStreamFilterFactory{}, nil
+	})
+}
+
+func TestGovcReplay(t *testing.T) {
+	setup()
+	defer tearDown()
+	configmanager.Reset()
+
+	name := "govc_rj_listener"
+	cfg := baseListenerConfig("127.0.0.1:18479", name) // stream filters: mock_stream
+	if err := GetListenerAdapterInstance().AddOrUpdateListener(testServerName, cfg); err != nil {
+		fmt.Println("REPLAY-INCONCLUSIVE add listener failed:", err)
+		return
+	}
+
+	// same name, different address: the update has to be rejected as a whole
+	bad := baseListenerConfig("127.0.0.1:18480", name)
+	bad.Addr, _ = net.ResolveTCPAddr("tcp", "127.0.0.1:18480")
+	bad.StreamFilters = []v2.Filter{{Type: "govc_rj_stream"}}
+	if err := GetListenerAdapterInstance().AddOrUpdateListener(testServerName, bad); err == nil {
+		fmt.Println("REPLAY-INCONCLUSIVE the update was accepted")
+		return
+	}
+
+	// stored configuration: still the old stream filters
+	stored := ""
+	configmanager.HandleMOSNConfig(configmanager.CfgTypeListener, func(v interface{}) {
+		if lns, ok := v.(map[string]v2.Listener); ok {
+			for _, f := range lns[name].StreamFilters {
+				stored += f.Type + ";"
+			}
+		}
+	})
+	if stored != "mock_stream;" {
+		fmt.Printf("REPLAY-INCONCLUSIVE stored stream filters changed: %q\n", stored)
+		return
+	}
+
+	// live: what a new stream on this listener gets
+	atomic.StoreInt32(&govcRjStreamCreated, 0)
+	f := streamfilter.GetStreamFilterManager().GetStreamFilterFactory(name)
+	if f == nil {
+		fmt.Println("REPLAY-INCONCLUSIVE no stream filter factory")
+		return
+	}
+	f.CreateFilterChain(context.Background(), nil)
+	if n := atomic.LoadInt32(&govcRjStreamCreated); n != 0 {
+		fmt.Printf("REPLAY-CONFIRMED a listener update that was refused (same name, other address) is live: a new stream on the listener gets the refused update's stream filter (created %d), the stored configuration still says %q\n", n, stored)
+		return
+	}
+	fmt.Println("REPLAY-NOT-REPRODUCED the refused update changed nothing; stored:", stored)
+}
+`
+			out, _ := runOverlayTest("pkg/server", src, "^TestGovcReplay$")
+			return outcomeFromOutput(src, out)
+		},
+	}}, harnesses...)
+}
+
+func init() {
+	harnesses = append([]*harness{{
+		name:      "empty HEADERS fragment replay (frames written by golang.org/x/net/http2, read by the reference and by MOSN's framer)",
+		modelFree: true,
+		match: func(o *Obligation) bool {
+			return strings.HasSuffix(o.Func, "module/http2.parseHeadersFrame") && strings.Contains(o.Name, "plainAccepted")
+		},
+		run: func(eng *Engine, o *Obligation) *ReplayOutcome {
+			src := `package http2
+
+import (
+	"bytes"
+	"context"
+	"fmt"
+	"testing"
+
+	xhttp2 "golang.org/x/net/http2"
+	xhpack "golang.org/x/net/http2/hpack"
+	"mosn.io/mosn/pkg/module/http2/hpack"
+	"mosn.io/pkg/buffer"
+)
+
+// The failed obligation says: a HEADERS frame without padding and priority is refused. Replay: a HEADERS frame with an
+// empty header block fragment followed by a CONTINUATION frame that carries the whole block, written by the reference
+// implementation (golang.org/x/net/http2), read back by the reference and by MOSN's framer.
+func TestGovcReplay(t *testing.T) {
+	var hb bytes.Buffer
+	enc := xhpack.NewEncoder(&hb)
+	for _, f := range []xhpack.HeaderField{{Name: ":method", Value: "GET"}, {Name: ":scheme", Value: "http"}, {Name: ":path", Value: "/"}} {
+		if err := enc.WriteField(f); err != nil {
+			fmt.Println("REPLAY-INCONCLUSIVE", err)
+			return
+		}
+	}
+	var out bytes.Buffer
+	xfr := xhttp2.NewFramer(&out, nil)
+	xfr.WriteHeaders(xhttp2.HeadersFrameParam{StreamID: 1, BlockFragment: nil, EndStream: true, EndHeaders: false})
+	xfr.WriteContinuation(1, true, hb.Bytes())
+	wire := out.Bytes()
+
+	ref := xhttp2.NewFramer(nil, bytes.NewReader(wire))
+	ref.ReadMetaHeaders = xhpack.NewDecoder(4096, nil)
+	rf, err := ref.ReadFrame()
+	mh, ok := rf.(*xhttp2.MetaHeadersFrame)
+	if err != nil || !ok || len(mh.Fields) != 3 {
+		fmt.Println("REPLAY-INCONCLUSIVE the reference does not parse the sequence into 3 fields:", rf, err)
+		return
+	}
+
+	fr := new(MFramer)
+	fr.ReadMetaHeaders = hpack.NewDecoder(initialHeaderTableSize, nil)
+	fr.MaxHeaderListSize = 1 << 20
+	fr.SetMaxReadFrameSize(defaultMaxReadFrameSize)
+	data := buffer.NewIoBuffer(len(wire))
+	data.Write(wire)
+	f, _, err := fr.ReadFrame(context.Background(), data, 0)
+	if err != nil {
+		fmt.Printf("REPLAY-CONFIRMED HEADERS(stream 1, empty fragment) + CONTINUATION(whole block): golang.org/x/net/http2 parses 3 header fields, MOSN's framer answers: %v\n", err)
+		return
+	}
+	if m, ok := f.(*MetaHeadersFrame); !ok || len(m.Fields) != 3 {
+		fmt.Printf("REPLAY-CONFIRMED the reference parses 3 header fields, MOSN's framer returns %v\n", f)
+		return
+	}
+	fmt.Println("REPLAY-NOT-REPRODUCED both parse the sequence into 3 header fields")
+}
+`
+			out, _ := runOverlayTest("pkg/module/http2", src, "^TestGovcReplay$")
+			return outcomeFromOutput(src, out)
+		},
+	}}, harnesses...)
+}
+
+func init() {
+	harnesses = append([]*harness{{
+		name:      "hijack plus re-match-route replay (real downstream, route with a direct response rule as forwarding marker)",
+		modelFree: true,
+		match: func(o *Obligation) bool {
+			return strings.HasSuffix(o.Func, "proxy.(*downStream).processError") && strings.Contains(o.Name, "noReentry")
+		},
+		run: func(eng *Engine, o *Obligation) *ReplayOutcome {
+			src := `package proxy
+
+import (
+	"fmt"
+	"context"
+	"sync/atomic"
+	"testing"
+	"time"
+
+	"mosn.io/api"
+	v2 "mosn.io/mosn/pkg/config/v2"
+	"mosn.io/mosn/pkg/network"
+	"mosn.io/mosn/pkg/protocol"
+	"mosn.io/mosn/pkg/router"
+	"mosn.io/mosn/pkg/types"
+	"mosn.io/pkg/buffer"
+	"mosn.io/pkg/variable"
+)
+
+// The failed obligation says: after a local reply was taken up, a re-entry request (re-match-route) stays pending. Replay on a
+// real downstream (mock collaborators of the package's own tests): the matched route has a direct response rule with
+// status 299, so "the request went on to the forwarding stage" shows as status 299. An AfterRoute filter answers the
+// request with 403 (hijack) and returns StreamFilterReMatchRoute.
+type govcHjFilter struct {
+	handler api.StreamReceiverFilterHandler
+	calls   int32
+	fn      func(f *govcHjFilter, call int32) api.StreamFilterStatus
+}
+
+func (f *govcHjFilter) OnDestroy() {}
+func (f *govcHjFilter) OnReceive(ctx context.Context, headers api.HeaderMap, buf buffer.IoBuffer, trailers api.HeaderMap) api.StreamFilterStatus {
+	return f.fn(f, atomic.AddInt32(&f.calls, 1))
+}
+func (f *govcHjFilter) SetReceiveFilterHandler(handler api.StreamReceiverFilterHandler) {
+	f.handler = handler
+}
+
+func govcHjDownstream(client *mockResponseSender) *downStream {
+	s := &downStream{
+		context: variable.NewVariableContext(context.Background()),
+		proxy: &proxy{
+			config: &v2.Proxy{},
+			routersWrapper: &mockRouterWrapper{
+				routers: &mockRouters{
+					route: &mockRoute{direct: &mockDirectRule{status: 299}},
+				},
+			},
+			clusterManager:      &mockClusterManager{},
+			readCallbacks:       &mockReadFilterCallbacks{},
+			stats:               globalStats,
+			listenerStats:       newListenerStats("test"),
+			serverStreamConn:    &mockServerConn{},
+			routeHandlerFactory: router.DefaultMakeHandler,
+		},
+		responseSender: client,
+		requestInfo:    &network.RequestInfo{},
+		notify:         make(chan struct{}, 1),
+	}
+	s.initStreamFilterChain()
+	return s
+}
+
+func govcHjRun(s *downStream) string {
+	s.OnReceive(s.context, protocol.CommonHeader{}, buffer.NewIoBuffer(0), nil)
+	time.Sleep(200 * time.Millisecond)
+	code, _ := variable.GetString(s.context, types.VarHeaderStatus)
+	return code
+}
+
+func TestGovcReplay(t *testing.T) {
+	client := &mockResponseSender{}
+	s := govcHjDownstream(client)
+	f := &govcHjFilter{fn: func(f *govcHjFilter, call int32) api.StreamFilterStatus {
+		if call == 1 {
+			f.handler.SendHijackReply(403, nil)
+			return api.StreamFilterReMatchRoute
+		}
+		return api.StreamFilterContinue
+	}}
+	s.streamFilterChain.AddStreamReceiverFilter(f, api.AfterRoute)
+	code := govcHjRun(s)
+	if code == "403" {
+		fmt.Println("REPLAY-NOT-REPRODUCED the client got the filter's 403")
+		return
+	}
+	fmt.Printf("REPLAY-CONFIRMED an AfterRoute filter answered the request with 403 (hijack) and returned StreamFilterReMatchRoute: the request went back to route matching and on to the forwarding stage (final status %q, filter ran %d times)\n", code, f.calls)
+}
+`
+			out, _ := runOverlayTest("pkg/proxy", src, "^TestGovcReplay$")
+			return outcomeFromOutput(src, out)
+		},
+	}}, harnesses...)
+}
